@@ -290,6 +290,7 @@ func runClosedScalar(cs *fw.Case, r *prng.Rand) {
 	x, dclass := kind.gen(r, n)
 	gamma, wclass := genGamma(r, n)
 	variant := r.Pick([]string{"Estimate", "EstimateOnData", "batch"})
+	gamma, wclass = applyShift(r, gamma, wclass, n)
 	d := &dataset{X: asRows(x), Gamma: gamma}
 	d.prepare()
 	est, fam, cfg, err := kind.mk(r, x)
@@ -301,8 +302,15 @@ func runClosedScalar(cs *fw.Case, r *prng.Rand) {
 	if kind.name == "normal" {
 		class = spreadClass(d, 0)
 	}
+	if activeShift != nil {
+		class += fmt.Sprintf(",shift=%g", *activeShift)
+	}
 	sigBase := fmt.Sprintf("C16|%s|%s|%s", cs.Monitor, kind.name, class)
-	if kind.name == "normal" && illClass(class) != "" {
+	if kind.name == "normal" && variant == "batch" && extremeShift() {
+		cs.Skip("batch-cannot-rescale")
+		return
+	}
+	if kind.name == "normal" && activeShift == nil && illClass(class) != "" {
 		// one cell per conditioning class for everything built on the scalar
 		// normal estimator's one-pass moments (direct, batch, wrappers)
 		sigBase = "C16|closed|scalarNormal-moments|" + class
@@ -428,6 +436,7 @@ func runClosedWrapper(cs *fw.Case, r *prng.Rand) {
 	n := genSize(r)
 	dim := r.Range(1, 3)
 	gamma, wclass := genGamma(r, n)
+	gamma, wclass = applyShift(r, gamma, wclass, n)
 	// data: one column per coordinate
 	X := make([][]float64, n)
 	for i := range X {
@@ -441,6 +450,10 @@ func runClosedWrapper(cs *fw.Case, r *prng.Rand) {
 		for i := range X {
 			X[i][q] = col[i]
 		}
+	}
+	if kind.name == "normal" && wrapper == "ScalarBatchId" && extremeShift() {
+		cs.Skip("batch-cannot-rescale")
+		return
 	}
 	iid := wrapper == "ScalarIid" || wrapper == "ScalarIid(n=-1)"
 	d := &dataset{X: X, Gamma: gamma}
@@ -621,8 +634,11 @@ func runClosedWrapper(cs *fw.Case, r *prng.Rand) {
 			cls = spreadClass(&dataset{X: pooled, w: pw, wsum: d.wsum * float64(dim)}, 0)
 		}
 	}
+	if activeShift != nil {
+		cls += fmt.Sprintf(",shift=%g", *activeShift)
+	}
 	sigBase := fmt.Sprintf("C16|%s|%s:%s|%s", cs.Monitor, wrapper, kind.name, cls)
-	if kind.name == "normal" && illClass(cls) != "" {
+	if kind.name == "normal" && activeShift == nil && illClass(cls) != "" {
 		sigBase = "C16|closed|scalarNormal-moments|" + cls
 	}
 	pname := func(k int) string {
